@@ -1,5 +1,263 @@
-From Coq Require Import List NArith ZArith Bool.
+(* C19 — the memoizing store (storage/memoization) is observationally identical to the store it wraps.
+
+   Model: coq/Memo/Memo.v (generic over an abstract wrapped store `inner_step`).  What is proved, for ALL histories:
+     full     C19_sequential_single_handle      one handle, sequential use, any key function the wrapped store respects
+     full     C19_offset                        the same with the concrete key that carries the paging offset (fix F16):
+                                                no assumption relating keys and the wrapped store is left
+     partial  C19_sequential_single_handle_partial   the pre-F16 key: requests with Offset = 0 or MaxElements <= 0
+     full     C19_read_only_any_handles         any number of handles as long as nothing is written through the wrapper
+     full     C19_no_overlap_answers_current / C19_no_overlap_linearizable
+                                                small-step model, one shared handle, any number of threads, every
+                                                interleaving in which no read overlaps a write
+     refuted  C19_offset_refuted (pre-F16 key), C19_second_handle_refuted, C19_stale_after_write_refuted,
+              C19_late_store_refuted, C19_truncated_cached_refuted          (witnesses replayed on the real code) *)
+From Coq Require Import List NArith ZArith Bool Arith.
+From Coq.Strings Require Import Byte.
 Import ListNotations.
-From BWMemo Require Import Memo Corr.
-Open Scope N_scope.
-Example C19_placeholder_example : True. Proof. exact I. Qed.
+From BWMemo Require Import Memo MemoProofs MemoStepProofs KeyProofs Concrete.
+
+(* which key function the current tree has (the correspondence run of checks/c19.py evaluates the model with key_cur) *)
+Theorem C19_model_follows_tree : forall arg : Type, @key_cur arg = @key_v0 arg.
+Proof. reflexivity. Qed.
+Print Assumptions C19_model_follows_tree.
+
+(* ------------------------------------------------------------------------------------------------ sequential, one handle *)
+Theorem C19_sequential_single_handle :
+  forall (istate gid wreq query elem err K : Type)
+         (is_exist : query -> bool) (key : query -> K) (K_eqb : K -> K -> bool)
+         (inner_step : istate -> gid -> @req wreq query -> istate * @answer elem err)
+         (D : query -> bool),
+    (* the key comparison decides equality of keys *)
+    (forall a b, K_eqb a b = true <-> a = b) ->
+    (* the wrapped store: lookups do not change it *)
+    (forall s g q, fst (inner_step s g (Read q)) = s) ->
+    (* ... requests (in D) with the same cache key get the same answer from it *)
+    (forall s g q1 q2, D q1 = true -> D q2 = true -> key q1 = key q2 -> is_exist q1 = is_exist q2 ->
+                       snd (inner_step s g (Read q1)) = snd (inner_step s g (Read q2))) ->
+    (* ... and a lookup that returns an error has delivered nothing *)
+    (forall s g q l e, D q = true -> snd (inner_step s g (Read q)) = AList l (Some e) -> l = []) ->
+    forall (s : istate) (g : gid) (rs : list (@req wreq query)),
+      (forall q, In (Read q) rs -> D q = true) ->
+      (* every answer through the memoizer = the wrapped store's answer at that moment; same final inner state *)
+      snd (memo_run istate gid wreq query elem err K is_exist key K_eqb inner_step (init_m s) (HOpen g :: map (HDo 0) rs))
+      = snd (ref_run istate gid wreq query elem err inner_step (init_r s) (HOpen g :: map (HDo 0) rs)) /\
+      m_inner (fst (memo_run istate gid wreq query elem err K is_exist key K_eqb inner_step (init_m s) (HOpen g :: map (HDo 0) rs)))
+      = r_inner (fst (ref_run istate gid wreq query elem err inner_step (init_r s) (HOpen g :: map (HDo 0) rs))).
+Proof.
+  intros istate gid wreq query elem err K is_exist key K_eqb inner_step D HK Hp Hk He s g rs HD.
+  exact (sequential_single_handle istate gid wreq query elem err K is_exist key K_eqb HK inner_step D Hp Hk He s g rs HD).
+Qed.
+Print Assumptions C19_sequential_single_handle.
+
+(* with the paging offset in the key (fix F16) equal keys mean equal requests: every page, every option combination
+   whose renderings are well formed (anchor text without comma and not "nil", filter text not "<nil>") *)
+Theorem C19_offset :
+  forall (istate gid wreq arg elem err : Type) (arg_eqb : arg -> arg -> bool)
+         (inner_step : istate -> gid -> @req wreq (cquery arg) -> istate * @answer elem err),
+    (forall a b, arg_eqb a b = true <-> a = b) ->
+    (forall s g q, fst (inner_step s g (Read q)) = s) ->
+    (forall s g q l e, lo_wf (q_lo q) = true -> snd (inner_step s g (Read q)) = AList l (Some e) -> l = []) ->
+    forall s g rs, (forall q, In (Read q) rs -> lo_wf (q_lo q) = true) ->
+      snd (memo_run istate gid wreq (cquery arg) elem err (ckey arg) cq_is_exist key_v1 (ckey_eqb arg_eqb) inner_step
+             (init_m s) (HOpen g :: map (HDo 0) rs))
+      = snd (ref_run istate gid wreq (cquery arg) elem err inner_step (init_r s) (HOpen g :: map (HDo 0) rs)).
+Proof.
+  intros istate gid wreq arg elem err arg_eqb inner_step HA Hp He s g rs HD.
+  exact (proj1 (seq_v1 istate gid wreq arg elem err arg_eqb HA inner_step Hp He s g rs HD)).
+Qed.
+Print Assumptions C19_offset.
+
+(* the key of the tree before F16 (no offset): the property holds on the domain D0 = first pages or no paging *)
+Theorem C19_sequential_single_handle_partial :
+  forall (istate gid wreq arg elem err : Type) (arg_eqb : arg -> arg -> bool)
+         (inner_step : istate -> gid -> @req wreq (cquery arg) -> istate * @answer elem err),
+    (forall a b, arg_eqb a b = true <-> a = b) ->
+    (forall s g q, fst (inner_step s g (Read q)) = s) ->
+    (* the wrapped store pages only when MaxElements > 0 *)
+    (forall s g q, (lo_max (q_lo q) <= 0)%Z ->
+                   snd (inner_step s g (Read q)) = snd (inner_step s g (Read (with_offset arg q 0)))) ->
+    (forall s g q l e, D0 arg q = true -> snd (inner_step s g (Read q)) = AList l (Some e) -> l = []) ->
+    forall s g rs,
+      (forall q, In (Read q) rs ->
+                 (lo_wf (q_lo q) && (Z.eqb (lo_offset (q_lo q)) 0 || Z.leb (lo_max (q_lo q)) 0)) = true) ->
+      snd (memo_run istate gid wreq (cquery arg) elem err (ckey arg) cq_is_exist key_v0 (ckey_eqb arg_eqb) inner_step
+             (init_m s) (HOpen g :: map (HDo 0) rs))
+      = snd (ref_run istate gid wreq (cquery arg) elem err inner_step (init_r s) (HOpen g :: map (HDo 0) rs)).
+Proof.
+  intros istate gid wreq arg elem err arg_eqb inner_step HA Hp Hpg He s g rs HD.
+  exact (proj1 (seq_v0 istate gid wreq arg elem err arg_eqb HA inner_step Hp Hpg He s g rs HD)).
+Qed.
+Print Assumptions C19_sequential_single_handle_partial.
+
+(* the domain of the partial theorem is inhabited by a non-trivial request: a window, a filter, and a page size
+   with Offset 0; and by a request with an Offset but no page size *)
+Example C19_partial_domain_example :
+  let anchor := [x32;x30;x31;x32;x2d;x30;x34;x2d;x31;x30;x54;x30;x34;x3a;x32;x31;x3a;x30;x30;x5a] in
+  D0 N (mkQ OObjects (mkLO 2 (Some anchor) None false (Some [x7b;x7d]) 0) [1%N; 2%N]) = true /\
+  D0 N (mkQ OTriples (mkLO 0 None None true None 3) []) = true /\
+  D0 N (mkQ OTriples (mkLO 2 None None false None 1) []) = false.
+Proof. vm_compute. repeat split. Qed.
+
+(* ------------------------------------------------------------------------------------------------ several handles, reads only *)
+Theorem C19_read_only_any_handles :
+  forall (istate gid wreq query elem err K : Type)
+         (is_exist : query -> bool) (key : query -> K) (K_eqb : K -> K -> bool)
+         (inner_step : istate -> gid -> @req wreq query -> istate * @answer elem err)
+         (D : query -> bool),
+    (forall a b, K_eqb a b = true <-> a = b) ->
+    (forall s g q, fst (inner_step s g (Read q)) = s) ->
+    (forall s g q1 q2, D q1 = true -> D q2 = true -> key q1 = key q2 -> is_exist q1 = is_exist q2 ->
+                       snd (inner_step s g (Read q1)) = snd (inner_step s g (Read q2))) ->
+    (forall s g q l e, D q = true -> snd (inner_step s g (Read q)) = AList l (Some e) -> l = []) ->
+    forall (s : istate) (ops : list (@hop gid wreq query)),
+      Forall (fun o => match o with HDo _ (Write _) => False | _ => True end) ops ->
+      Forall (fun o => match o with HDo _ (Read q) => D q = true | _ => True end) ops ->
+      snd (memo_run istate gid wreq query elem err K is_exist key K_eqb inner_step (init_m s) ops)
+      = snd (ref_run istate gid wreq query elem err inner_step (init_r s) ops).
+Proof.
+  intros istate gid wreq query elem err K is_exist key K_eqb inner_step D HK Hp Hk He s ops H1 H2.
+  pose proof (reads_only_run istate gid wreq query elem err K is_exist key K_eqb HK inner_step D Hp Hk He ops s []
+                (fun h Hin => match Hin with end) H1 H2) as R.
+  unfold init_m, init_r. cbn [map] in R.
+  destruct (memo_run istate gid wreq query elem err K is_exist key K_eqb inner_step (mkM s []) ops).
+  destruct (ref_run istate gid wreq query elem err inner_step (mkR s []) ops).
+  exact (proj1 R).
+Qed.
+Print Assumptions C19_read_only_any_handles.
+
+(* ------------------------------------------------------------------------------------------------ interleavings *)
+(* Small-step model (Memo.step): threads share ONE handle; a schedule is any sequence of thread numbers; Memo.run_log
+   with excl = true accepts exactly the schedules in which a write starts only when all other threads are idle and a
+   read starts only when no thread is inside a write.  For every such schedule, from every initial state: *)
+Theorem C19_no_overlap_answers_current :
+  forall (istate gid wreq query elem err K : Type)
+         (is_exist : query -> bool) (key : query -> K) (K_eqb : K -> K -> bool)
+         (inner_step : istate -> gid -> @req wreq query -> istate * @answer elem err)
+         (D : query -> bool),
+    (forall a b, K_eqb a b = true <-> a = b) ->
+    (forall s g q, fst (inner_step s g (Read q)) = s) ->
+    (forall s g q1 q2, D q1 = true -> D q2 = true -> key q1 = key q2 -> is_exist q1 = is_exist q2 ->
+                       snd (inner_step s g (Read q1)) = snd (inner_step s g (Read q2))) ->
+    (forall s g q l e, D q = true -> snd (inner_step s g (Read q)) = AList l (Some e) -> l = []) ->
+    forall (s : istate) (g : gid) (progs : list (list (@req wreq query))) (sched : list nat) stf lg,
+      (forall p q, In p progs -> In (Read q) p -> D q = true) ->
+      run_log istate gid wreq query elem err K is_exist key K_eqb inner_step true
+              (mkG s [fresh g] (map (mk_thread 0) progs)) sched = Some (stf, lg) ->
+      (* every completed request returned what the wrapped store answers in the state of that moment *)
+      forall i rq a ref, In (i, rq, a, ref) lg -> a = ref.
+Proof.
+  intros istate gid wreq query elem err K is_exist key K_eqb inner_step D HK Hp Hk He s g progs sched stf lg HD HR i rq a ref Hin.
+  pose proof (Inv_init istate gid wreq query elem err K is_exist key K_eqb inner_step D s g progs HD) as HI.
+  destruct (excl_answers_current istate gid wreq query elem err K is_exist key K_eqb HK inner_step D Hp Hk He
+              sched g _ stf lg HI HR) as [_ H].
+  exact (H (i, rq, a, ref) Hin).
+Qed.
+Print Assumptions C19_no_overlap_answers_current.
+
+Theorem C19_no_overlap_linearizable :
+  forall (istate gid wreq query elem err K : Type)
+         (is_exist : query -> bool) (key : query -> K) (K_eqb : K -> K -> bool)
+         (inner_step : istate -> gid -> @req wreq query -> istate * @answer elem err)
+         (D : query -> bool),
+    (forall a b, K_eqb a b = true <-> a = b) ->
+    (forall s g q, fst (inner_step s g (Read q)) = s) ->
+    (forall s g q1 q2, D q1 = true -> D q2 = true -> key q1 = key q2 -> is_exist q1 = is_exist q2 ->
+                       snd (inner_step s g (Read q1)) = snd (inner_step s g (Read q2))) ->
+    (forall s g q l e, D q = true -> snd (inner_step s g (Read q)) = AList l (Some e) -> l = []) ->
+    forall (s : istate) (g : gid) (progs : list (list (@req wreq query))) (sched : list nat) stf lg,
+      (forall p q, In p progs -> In (Read q) p -> D q = true) ->
+      run_log istate gid wreq query elem err K is_exist key K_eqb inner_step true
+              (mkG s [fresh g] (map (mk_thread 0) progs)) sched = Some (stf, lg) ->
+      (* the run is the sequential run of the WRAPPED STORE ALONE on the requests in completion order *)
+      ref_run istate gid wreq query elem err inner_step (mkR s [g])
+              (map (fun e : nat * @req wreq query * @answer elem err * @answer elem err => HDo 0 (snd (fst (fst e)))) lg)
+      = (mkR (g_inner stf) [g], map (fun e : nat * @req wreq query * @answer elem err * @answer elem err => snd (fst e)) lg).
+Proof.
+  intros istate gid wreq query elem err K is_exist key K_eqb inner_step D HK Hp Hk He s g progs sched stf lg HD HR.
+  pose proof (Inv_init istate gid wreq query elem err K is_exist key K_eqb inner_step D s g progs HD) as HI.
+  exact (excl_linearizable istate gid wreq query elem err K is_exist key K_eqb HK inner_step D Hp Hk He
+           sched g _ stf lg HI HR).
+Qed.
+Print Assumptions C19_no_overlap_linearizable.
+
+(* the hypotheses of the theorems above are satisfiable: the tiny wrapped store (numbered triples, paging) has pure
+   reads and never returns an error together with elements; and a restricted schedule with overlapping READS exists *)
+Example C19_hypotheses_example :
+  (forall s g q, fst (tiny_step s g (Read q)) = s) /\
+  (forall s g q l e, snd (tiny_step s g (Read q)) = AList l (Some e) -> l = []) /\
+  exists stf lg,
+    tlog key_v1 true (tstate [1%N] 1 [(0, [wr_add [2%N]]); (0, [rd_list 0 0; rd_list 0 0]); (0, [rd_list 0 0])])
+         [1; 2; 1; 2; 2; 1; 0; 0; 1; 1; 1] = Some (stf, lg) /\ length lg = 4.
+Proof.
+  split; [exact tiny_reads_pure|]. split; [exact tiny_err_empty|].
+  eexists. eexists. split; [vm_compute; reflexivity|reflexivity].
+Qed.
+
+(* ------------------------------------------------------------------------------------------------ refutations *)
+(* pre-F16 key: three pages of a three-element listing through one handle all come back as page 0 *)
+Theorem C19_offset_refuted :
+  exists (init : list N) (rs : list (@req twreq tquery)),
+    snd (tm_run key_v0 (init_m init) (HOpen 0%N :: map (HDo 0) rs))
+    <> snd (tr_run (init_r init) (HOpen 0%N :: map (HDo 0) rs)).
+Proof.
+  exists [1;2;3]%N, [rd_list 1 0; rd_list 1 1; rd_list 1 2]. vm_compute. discriminate.
+Qed.
+Print Assumptions C19_offset_refuted.
+
+(* ... precisely: the memoizer answers [1],[1],[1] where the wrapped store answers [1],[2],[3] *)
+Example C19_offset_refuted_example :
+  snd (tm_run key_v0 (init_m [1;2;3]%N) (HOpen 0%N :: map (HDo 0) [rd_list 1 0; rd_list 1 1; rd_list 1 2]))
+  = [AAck None; AList [1%N] None; AList [1%N] None; AList [1%N] None] /\
+  snd (tr_run (init_r [1;2;3]%N) (HOpen 0%N :: map (HDo 0) [rd_list 1 0; rd_list 1 1; rd_list 1 2]))
+  = [AAck None; AList [1%N] None; AList [2%N] None; AList [3%N] None].
+Proof. vm_compute. split; reflexivity. Qed.
+
+(* a second handle of the same graph is not invalidated by a write through the first (whatever the key) *)
+Theorem C19_second_handle_refuted :
+  exists (init : list N) (ops : list (@hop N twreq tquery)),
+    snd (tm_run key_v1 (init_m init) ops) <> snd (tr_run (init_r init) ops) /\
+    snd (tm_run key_v0 (init_m init) ops) <> snd (tr_run (init_r init) ops).
+Proof.
+  exists [1%N], [HOpen 0%N; HOpen 0%N; HDo 1 (rd_list 0 0); HDo 0 (wr_add [2%N]); HDo 1 (rd_list 0 0)].
+  split; vm_compute; discriminate.
+Qed.
+Print Assumptions C19_second_handle_refuted.
+
+(* one handle, one writer, one reader: the reader runs a whole lookup between the writer's cache clear and its
+   forwarded write; the entry it stores survives, and its next lookup - started AFTER AddTriples has returned
+   (log order) - is served the old listing [1] while the wrapped store holds [1;2] *)
+Theorem C19_stale_after_write_refuted :
+  exists stf,
+    tlog key_v1 false (tstate [1%N] 1 [(0, [wr_add [2%N]]); (0, [rd_list 0 0; rd_list 0 0])]) [0; 1; 1; 1; 0; 1]
+    = Some (stf, [ (1, rd_list 0 0, AList [1%N] None, AList [1%N] None);
+                   (0, wr_add [2%N], AAck None, AAck None);
+                   (1, rd_list 0 0, AList [1%N] None, AList [1;2]%N None) ]).
+Proof. eexists. vm_compute. reflexivity. Qed.
+Print Assumptions C19_stale_after_write_refuted.
+
+(* the same staleness without the reader ever running between clear and write: its forwarded read happens before
+   the clear, its cache store after it *)
+Theorem C19_late_store_refuted :
+  exists stf,
+    tlog key_v1 false (tstate [1%N] 1 [(0, [wr_add [2%N]]); (0, [rd_list 0 0; rd_list 0 0])]) [1; 1; 0; 0; 1; 1]
+    = Some (stf, [ (0, wr_add [2%N], AAck None, AAck None);
+                   (1, rd_list 0 0, AList [1%N] None, AList [1;2]%N None);
+                   (1, rd_list 0 0, AList [1%N] None, AList [1;2]%N None) ]).
+Proof. eexists. vm_compute. reflexivity. Qed.
+Print Assumptions C19_late_store_refuted.
+
+(* both schedules are rejected by the no-overlap discipline (so they do not contradict the positive theorems) *)
+Example C19_refuting_schedules_overlap_example :
+  tlog key_v1 true (tstate [1%N] 1 [(0, [wr_add [2%N]]); (0, [rd_list 0 0; rd_list 0 0])]) [0; 1; 1; 1; 0; 1] = None /\
+  tlog key_v1 true (tstate [1%N] 1 [(0, [wr_add [2%N]]); (0, [rd_list 0 0; rd_list 0 0])]) [1; 1; 0; 0; 1; 1] = None.
+Proof. vm_compute. split; reflexivity. Qed.
+
+(* a wrapped store that fails after delivering one element: the truncated list is cached and the next lookup returns
+   it WITHOUT an error although the wrapped store (healthy again) would deliver [1;2;3] *)
+Theorem C19_truncated_cached_refuted :
+  exists st,
+    fm_run (init_m ([1;2;3]%N, true)) [HOpen 0%N; HDo 0 (rd_list 0 0); HDo 0 (rd_list 0 0)]
+    = (st, [AAck None; AList [1%N] (Some 1%N); AList [1%N] None]) /\
+    snd (flaky_step (m_inner st) 0%N (rd_list 0 0)) = AList [1;2;3]%N None.
+Proof. eexists. vm_compute. split; reflexivity. Qed.
+Print Assumptions C19_truncated_cached_refuted.
